@@ -66,15 +66,17 @@ def ls4(F, R):
                 defs = var_def_terms(fn, cv)
                 dstr = sorted(tstr(d) for d in defs)
                 # initial values
-                init_ok = any(d[0] == "agg" and d[2] and d[2].endswith("Option::Some") and _dir_cluster_term(d[3][0]) for d in defs)
+                # (the cursor is an Option<ClusterId> ended by None, or a plain ClusterId in a loop ended by `break`)
+                pay = lambda d: d[3][0] if (d[0] == "agg" and d[2] and d[2].endswith("Option::Some") and d[3]) else (None if d[0] == "agg" and d[2] and "Option::" in d[2] else d)
+                init_ok = any(pay(d) is not None and _dir_cluster_term(pay(d)) for d in defs)
                 if not init_ok:
                     problems.append("walk does not start at the directory's own cluster (cursor defs %s)" % dstr)
                 if arm == "Fat32":
-                    root_ok = any(d[0] == "agg" and d[2] and d[2].endswith("Option::Some") and last_field(strip_refs(d[3][0])) == "first_root_dir_cluster" for d in defs)
+                    root_ok = any(pay(d) is not None and strip_refs(pay(d))[0] == "place" and last_field(strip_refs(pay(d))) == "first_root_dir_cluster" for d in defs)
                     if not root_ok:
                         problems.append("FAT32 root walk does not start at first_root_dir_cluster (cursor defs %s)" % dstr)
                 for d in defs:
-                    if d[0] == "agg" and d[2] and d[2].endswith("Option::Some") and d[3][0][0] in ("c", "agg") and not has_sub(d[3][0], lambda q: q[0] in ("arg", "var", "place", "call")):
+                    if pay(d) is not None and pay(d)[0] in ("c", "agg") and not has_sub(pay(d), lambda q: q[0] in ("arg", "var", "place", "call")):
                         problems.append("walk cursor set to a constant cluster %s" % tstr(d))
                 # continuation: cursor := Some(n) where n is the Ok payload of this next_cluster (possibly via a temp var)
                 # block start for the next round
